@@ -67,6 +67,10 @@ def corpus():
         out.append({"k": "hand", "groups": [[hold(0, 4, 0)], [[2, 1, 0, "M", 0, None]], [[3, 1, 1, "1", 0, None]]], "pol": pol})
         out.append({"k": "hand", "groups": [[hold(0, 4, 0)], [hold(1, 3, 1)], [[2, 1, 0, "M", 0, None]]], "pol": pol})
     out.append({"k": "rt", "ns": [[0, 1, 0, "2", 0, 0], [1, 1, 0, "3", 0, None]], "types": c09.ALLTYPES, "mode": 1, "join": True, "ph": 2, "pt": 2, "pol": 1})
+    # three notes on distinct beats inside one 1/48 tick, types A B A, under each same-beat mode: distinct beats stay distinct groups
+    for mode in (1, 2, 3):
+        for join in (False, True):
+            out.append({"k": "rt", "ns": [[1, 7, 0, "1", 0, None], [7, 48, 0, "M", 0, None], [3, 20, 1, "1", 0, None]], "types": c09.ALLTYPES, "mode": mode, "join": join, "ph": 2, "pt": 2, "pol": 1})
     out.append({"k": "rt", "ns": [[0, 1, 0, "2", 0, 5], [1, 1, 1, "4", 0, 0], [2, 1, 1, "3", 0, None], [3, 1, 0, "3", 0, None]], "types": c09.ALLTYPES, "mode": 1, "join": True, "ph": 2, "pt": 2, "pol": 1})
     return out
 
